@@ -3171,7 +3171,11 @@ pub fn matrix_column_elements(&mut self, column_elements: &[&MatrixColumn]) -> S
       RealNumber::Hexadecimal(token) => format!("0x{}", token.to_string()),
       RealNumber::Octal(token) => format!("0o{}", token.to_string()),
       RealNumber::Binary(token) => format!("0b{}", token.to_string()),
-      RealNumber::Scientific(((whole, part), (sign, ewhole, epart))) => format!("{}.{}e{}{}.{}", whole.to_string(), part.to_string(), if *sign { "-" } else { "+" }, ewhole.to_string(), epart.to_string()),
+      RealNumber::Scientific(((whole, part), (sign, ewhole, epart))) => {
+        // the fractional parts are optional: print the point only with the digits that follow it
+        let frac = |t: &Token| { let s = t.to_string(); if s.is_empty() { s } else { format!(".{}", s) } };
+        format!("{}{}e{}{}{}", whole.to_string(), frac(part), if *sign { "-" } else { "" }, ewhole.to_string(), frac(epart))
+      },
       RealNumber::Rational((numerator, denominator)) => format!("{}/{}", numerator.to_string(), denominator.to_string()),
       RealNumber::TypedInteger((token, kind_annotation)) => {
         let num = token.to_string();
